@@ -293,7 +293,7 @@ func main() {
 			udp  bool
 		}{mirror.Drop, false})
 	}
-	nRand := c.Pick(40000, 800000)
+	nRand := c.Pick(160000, 4000000)
 	totalCases := nEx*len(combos) + nRand
 	c.Note("exhaustive", false)
 	c.Note("exhaustive_part", fmt.Sprintf("all %d^%d = %d words over 3 keys x {T/A, T/B, bad, D/A, D/B} for each of %d (mode, transport) combinations; plus %d random histories of length 6..40 over 2 domains x 4 ids", len(alpha), depth, nEx, len(combos), nRand))
